@@ -258,13 +258,16 @@ func (s *Session) handleNodeDown(ip net.IP, port int) {
 
 	host, ok := s.ring.getHostByIP(ip.String())
 	if ok {
-		host.setState(NodeDown)
-		if s.cfg.filterHost(host) {
-			return
-		}
-
-		s.policy.HostDown(host)
-		hostID := host.HostID()
-		s.pool.removeHost(hostID)
+		s.handleHostDown(host)
 	}
+}
+
+func (s *Session) handleHostDown(host *HostInfo) {
+	host.setState(NodeDown)
+	if s.cfg.filterHost(host) {
+		return
+	}
+
+	s.policy.HostDown(host)
+	s.pool.removeHost(host.HostID())
 }
